@@ -477,10 +477,11 @@ func (r *runner) finish(ans [][2]int) {
 // ---------- generator ----------
 
 type gen struct {
-	r    *hx.Rng
-	run  *runner
-	next int
-	used map[[2]int]bool
+	r     *hx.Rng
+	run   *runner
+	next  int
+	focus int // sender receiving most fresh transactions of this case, 0 = none
+	used  map[[2]int]bool
 }
 
 func (g *gen) inPool() []int {
@@ -526,7 +527,11 @@ func (g *gen) clash(sender int, nonce, prio uint64) bool {
 func (g *gen) add(prefer []int) {
 	in, out := g.inPool(), g.notInPool()
 	var t *txInfo
-	switch roll := g.r.Intn(100); {
+	roll := g.r.Intn(100)
+	if g.focus > 0 && g.r.Bool() {
+		roll = 0
+	}
+	switch {
 	case roll >= 50 && roll < 70 && len(in) > 0: // replacement attempt around the threshold
 		old := g.run.txs[g.pick(in)]
 		md := int64(g.run.cfg[3])
@@ -541,11 +546,14 @@ func (g *gen) add(prefer []int) {
 		t = g.run.txs[g.pick(in)]
 	default:
 		s := 1 + g.r.Intn(3)
+		if g.focus > 0 {
+			prefer = []int{g.focus}
+		}
 		if len(prefer) > 0 && g.r.Intn(4) != 0 {
 			s = g.pick(prefer)
 		}
 		nonce := g.r.Intn(5)
-		if g.r.Intn(10) < 7 {
+		if g.r.Intn(10) < 7 || g.focus > 0 && g.r.Intn(3) != 0 {
 			for n := 0; n < 5; n++ {
 				if !g.used[[2]int{s, n}] {
 					nonce = n
@@ -590,13 +598,27 @@ func (g *gen) interleaved() {
 			heads = append(heads, l.IDs[0])
 		}
 	}
-	if len(heads) > 0 && g.r.Bool() {
+	if mids := g.mids(); len(mids) > 0 && g.r.Intn(4) != 0 {
+		g.run.rm(g.pick(mids))
+	} else if len(heads) > 0 && g.r.Bool() {
 		g.run.rm(g.pick(heads))
 	} else if g.r.Intn(4) == 0 {
 		g.rm()
 	} else {
 		g.add(senders)
 	}
+}
+
+// mids: processable transactions, other than the first of their list, of lists that also hold
+// unprocessable ones; removing one while a reorg is held cuts the run the reorg is about to extend.
+func (g *gen) mids() []int {
+	res := []int{}
+	for _, l := range g.run.last.Lists {
+		for i := 1; i < len(l.Procs) && len(l.Keys) > len(l.Procs); i++ {
+			res = append(res, l.at(l.Procs[i]))
+		}
+	}
+	return res
 }
 
 func (g *gen) answers() [][2]int {
@@ -616,14 +638,25 @@ func (g *gen) answers() [][2]int {
 
 func genCase(rng *hx.Rng, maxLen int) caseJ {
 	cfg := [4]uint64{uint64(1 + rng.Intn(3)), uint64(1 + rng.Intn(3)), []uint64{0, 0, 0, 2}[rng.Intn(4)], []uint64{1, 10, 100}[rng.Intn(3)]}
-	g := &gen{r: rng, run: newRunner(cfg), used: map[[2]int]bool{}}
+	focus := 0
+	if rng.Intn(3) == 0 { // a third of the cases: one dominant sender and room for a run of three
+		focus, cfg[0], cfg[1] = 1+rng.Intn(3), 3, 3
+	}
+	g := &gen{r: rng, run: newRunner(cfg), used: map[[2]int]bool{}, focus: focus}
 	nops := 4
 	if maxLen > 4 {
 		nops += rng.Intn(maxLen - 3)
 	}
 	open, inter := false, 0 // a begin was issued and awaits its finish; interleaved ops still to issue
 	for !g.run.dead && (len(g.run.steps) < nops || open) {
-		switch w := rng.Intn(100); {
+		w := rng.Intn(100)
+		if focus > 0 { // fewer removals, and a reorg as soon as a run with a processable prefix can be extended
+			w = w * 115 / 100
+			if len(g.mids()) > 0 && rng.Intn(4) != 0 {
+				w = 100
+			}
+		}
+		switch {
 		case open && inter > 0 && len(g.run.steps) < nops:
 			inter--
 			g.interleaved()
@@ -637,7 +670,7 @@ func genCase(rng *hx.Rng, maxLen int) caseJ {
 		default:
 			g.run.begin()
 			open, inter = true, 0
-			if rng.Bool() {
+			if rng.Bool() || len(g.mids()) > 0 {
 				inter = 1 + rng.Intn(3)
 			}
 		}
